@@ -4,10 +4,10 @@ SPECIFICATION SpecHist
 CONSTANTS
   NP = 2
   BudSet = {1}
-  Depth = 6
+  Depth = 5
   CacheRule = "all"
   AddSet = {"I1", "I2", "P", "I3", "P2", "Q1", "Q2", "K"}
-  GetSet = {"I1", "I2", "P"}
+  GetSet = {"I1", "I2", "P", "D1", "D0"}
   PatSets = {{1}, {2}}
   MaxLines = 0
   CBudSet = {0}
